@@ -103,6 +103,10 @@ def padclass(name):
 def setup(case, rng):
     c = case['c']
     K, T, _ = c02.material({'c': c, 'kp': 'rand', 'tp': 'trand'}, rng)
+    if c in ('tdea-s24', 'tdea3') and (case.get('nb', 0) + case.get('r', 0)) % 3:
+        # bundles with equal sub-keys (K1==K2!=K3, K1!=K2==K3, K1==K3): degenerate but legal keying options
+        eq = (case.get('nb', 0) + case.get('r', 0)) % 3 + 2 * (case.get('r', 0) % 2)
+        K = {1: K[:8] + K[:8] + K[16:], 2: K[:8] + K[8:16] + K[8:16], 3: K[:8] + K[8:16] + K[:8], 4: K[:8] * 3}[eq]
     n = c02.blocklen(c)
     E = lambda b: c02.ref(c, K, T, b, False)
     mk = lambda: c02.build(c, K, T)
